@@ -426,7 +426,7 @@ def c19(prop, tier, t0):
 @check("C16")
 def c16(prop, tier, t0):
     bound = 2 if tier == "quick" else 3
-    m, cov = engb_run(prop, tier, "c16", bound, budget="45s" if tier == "quick" else "900s", select=lambda n: "axis through a slow output" not in n)
+    m, cov = engb_run(prop, tier, "c16", bound, budget="100s" if tier == "quick" else "900s", select=lambda n: "axis through a slow output" not in n)
     cov["explanation"] = ("real device package (events.go, device.go, open_rgb.go instrumented incl. data-access annotations) + fake OpenRGB under the controlled scheduler: event feeder, MIDI-input feeder, output drainer, "
                           "ProcessEvents with its LED and MIDI-input goroutines; OpenRGB absent / connected (virtual time) / failing (up to 2, thorough 3, failing calls or the server gone for good, at every call: explicit environment choices), MIDI input nil / live, two devices on one output. Oracle per schedule: ProcessEvents returns after the stream "
                           "ends and nothing it started stays blocked, no happens-before race on any mutable Device field, last LED frame all red, each device's output equals its output when run alone.")
